@@ -24,7 +24,14 @@ RULE = ('Reference generator + E1: wire frames built from the grammar with '
         'the specification) is held to ONE reading at every position and '
         'array length. Each frame is decoded by the '
         'independent reference decoder and by the library; a case is one '
-        'wire frame (or value encoding); non-trivial = all.')
+        'wire frame (or value encoding); non-trivial = all.'
+        ' '
+        'Also: frames beyond 1, 2 and 4 MiB - long strings with a 2-, '
+        '3- or 4-byte character across every MiB mark at each byte '
+        'offset, non-UTF-8 long strings before / after / inside that '
+        'much filler in tables, arrays, nested tables and headers '
+        '(type-strict: str, or bytes, not a view); properties flagged '
+        'present with an empty value.')
 BOUNDS = {'quick': {'tags_8bit': 'all 256', 'tags_16bit': 'all 65536',
                     'timestamps': 'boundary set', 'vectors': '<=1 deviation'},
           'thorough': {'tags_8bit': 'all 256', 'tags_16bit': 'all 65536',
